@@ -194,3 +194,49 @@ pub fn release(tag: u64) {
     }
     CONTROLLER_CV.notify_all();
 }
+
+/// Trace point + schedule point in one; always returns `false` so that it can sit in a match-arm
+/// guard (evaluated while the scrutinee, e.g. a lock guard, is still alive) without taking the arm.
+pub fn at(name: &str) -> bool {
+    emit(name, "");
+    sync_point(name);
+    false
+}
+
+static REGION_INSIDE: std::sync::atomic::AtomicUsize = std::sync::atomic::AtomicUsize::new(0);
+static REGION_MAX: std::sync::atomic::AtomicUsize = std::sync::atomic::AtomicUsize::new(0);
+
+/// Marks the dynamic extent of a code region (enter on construction, exit on drop) and counts how
+/// many threads are inside at once.
+pub struct Region(&'static str);
+
+impl Region {
+    pub fn enter(name: &'static str) -> Region {
+        let inside = REGION_INSIDE.fetch_add(1, Ordering::SeqCst) + 1;
+        REGION_MAX.fetch_max(inside, Ordering::SeqCst);
+        if enabled() {
+            emit("enter", &format!("\"region\":\"{}\",\"inside\":{}", name, inside));
+        }
+        sync_point("region.enter");
+        Region(name)
+    }
+}
+
+impl Drop for Region {
+    fn drop(&mut self) {
+        sync_point("region.exit");
+        let inside = REGION_INSIDE.fetch_sub(1, Ordering::SeqCst) - 1;
+        if enabled() {
+            emit("exit", &format!("\"region\":\"{}\",\"inside\":{}", self.0, inside));
+        }
+    }
+}
+
+/// Highest number of threads ever observed inside a `Region` at the same time.
+pub fn region_max_inside() -> usize {
+    REGION_MAX.load(Ordering::SeqCst)
+}
+
+pub fn reset_region_max() {
+    REGION_MAX.store(0, Ordering::SeqCst)
+}
